@@ -38,7 +38,7 @@ from ..core import (
     unparse,
     walk_no_nested,
 )
-from ..flow import Opaque, _stmt_chain, always_exits, dealias, guards, loops_around, reaching
+from ..flow import Opaque, _stmt_chain, always_exits, dealias, guards, inline, loops_around, reaching
 from ..resolve import enum_members, method_def, resolve_callee
 
 MODEL = "model.reconciliation"
@@ -2101,6 +2101,15 @@ def cost_no_rounding(prog: Program) -> RuleResult:
             res.fail(construct, f"`{short(bad[0])}` rounds the requested cost (1.5 becomes 1): the tool then optimises and reports under another vector than the one asked for", cli, bad[0])
         else:
             res.ok(construct, "the parsed value is returned as it is")
+        # the option is documented as an EXPRESSION ("Evaluate a cost expression in the context of this module"):
+        # `float('inf')` forbids an event, `3/2` is a fractional cost - a literal-only parser rejects both
+        construct = f"cli.reconcile:{name}/expressions"
+        literal_only = [c for c in walk_no_nested(fn) if isinstance(c, ast.Call) and (dotted(c.func) or "").split(".")[-1] == "literal_eval" and c.args and isinstance(c.args[0], ast.Name) and c.args[0].id in func_params(fn)]
+        evals = [c for c in walk_no_nested(fn) if isinstance(c, ast.Call) and dotted(c.func) == "eval"]
+        if literal_only and not evals:
+            res.fail(construct, f"`{short(literal_only[0])}` accepts Python literals only: cost expressions such as `float('inf')` (an event that is forbidden) or `3/2` are rejected by the argument parser, and nothing is written for them", cli, literal_only[0])
+        else:
+            res.ok(construct, "cost options are evaluated as expressions" if evals else "the parser accepts `inf`")
     solver_mods = ("compute.reconciliation", "compute.super_reconciliation", "compute.unordered_super_reconciliation", "compute.exhaustive")
     table = _cost_taint_table(prog, solver_mods)
     for modname in solver_mods:
@@ -2990,6 +2999,36 @@ def eval_no_shortcut(prog: Program) -> RuleResult:
                 res.fail(construct, f"`{short(early[0])}` {early[1]}", mod, early[0])
             else:
                 res.ok(construct, "every conditional return is selected by the node's event")
+    # the totals are exactly the sums of the documented parts: cost() of a reconciliation is the recount from the
+    # root of the object tree, cost() of a super-reconciliation adds the labelling cost - no further term
+    from ..sym import Normaliser, Poly
+
+    norm = Normaliser()
+    for cname, want in (("ReconciliationOutput", ("self._cost_rec(self.input.object_tree)",)), ("SuperReconciliationOutput", ("self.labeling_cost()", "self.reconciliation_cost()"))):
+        cls = prog.cls(MODEL, cname)
+        for mname in ("cost", "reconciliation_cost"):
+            fn = method_def(cls, mname)
+            if fn is None:
+                continue
+            if cname == "SuperReconciliationOutput" and mname == "reconciliation_cost":
+                wanted = ("super().cost()",)
+            elif mname == "reconciliation_cost":
+                continue
+            else:
+                wanted = want
+            construct = f"{MODEL}:{cname}.{mname}/sum-of-parts"
+            rets = [r for r in walk_no_nested(fn) if isinstance(r, ast.Return) and r.value is not None]
+            if len(rets) != 1:
+                raise AnalysisError(f"{cname}.{mname}: expected a single return")
+            value = inline(fn, rets[0].value, rets[0])
+            poly = norm.poly(value)
+            terms = sorted(poly.atom_keys())
+            expect = sorted(norm.text(ast.parse(w, mode="eval").body, False) for w in wanted)
+            exact = terms == expect and all(poly.coefficient_of(t).const_value() == 1 for t in terms) and (poly - sum((Poly.atom(t) for t in terms), Poly())) == Poly()
+            if exact:
+                res.ok(construct, f"{mname}() = " + " + ".join(wanted))
+            else:
+                res.fail(construct, f"{cname}.{mname}() returns `{short(rets[0].value, 90)}`, not exactly {' + '.join(wanted)}: the total is no longer the documented sum of event costs (nothing is charged above the root of the object tree)", mod, rets[0])
     if n < 3:
         raise AnalysisError("EVAL-NO-SHORTCUT: evaluator methods not found")
     return res
@@ -3757,7 +3796,140 @@ def loss_color_own(prog: Program) -> RuleResult:
     return res
 
 
+# ---------------------------------------------------------------------------
+# UNPACK-SPLIT, RECORD-FIELDS-AGREE, PARAM-NOT-REWRITTEN (get_color), VARARGS-AS-GIVEN
+
+
+def unpack_split(prog: Program) -> RuleResult:
+    res = RuleResult(
+        "UNPACK-SPLIT",
+        "a string that is split and unpacked into n names is split at most n - 1 times (`maxsplit`): otherwise one "
+        "separator more in the data is a ValueError; and the `<species>_<id>` name of an extant gene is split from "
+        "the RIGHT, because the species part may itself contain underscores",
+    )
+    n = 0
+    for mod in sorted(prog.modules.values(), key=lambda m: m.relpath):
+        key = _modkey(mod)
+        for qual, fn in prog.defs(mod.name).items():
+            if not isinstance(fn, FuncNode):
+                continue
+            for st in walk_no_nested(fn):
+                if not (isinstance(st, ast.Assign) and len(st.targets) == 1 and isinstance(st.targets[0], ast.Tuple)):
+                    continue
+                call = st.value
+                if not (isinstance(call, ast.Call) and isinstance(call.func, ast.Attribute) and call.func.attr in ("split", "rsplit")):
+                    continue
+                if any(isinstance(e, ast.Starred) for e in st.targets[0].elts):
+                    continue
+                n += 1
+                want = len(st.targets[0].elts) - 1
+                maxsplit = call.args[1] if len(call.args) > 1 else next((k.value for k in call.keywords if k.arg == "maxsplit"), None)
+                construct = f"{key}:{qual}/unpack-split[{short(call.func.value, 30)}]"
+                if not (isinstance(maxsplit, ast.Constant) and maxsplit.value == want):
+                    res.fail(construct, f"`{short(st, 70)}` unpacks into {want + 1} names without `maxsplit={want}`: a value with one separator more raises ValueError (a species called `e_coli` gives the leaf `e_coli_1`)", mod, st)
+                elif key == "render.layout" and call.func.attr != "rsplit" and isinstance(call.func.value, ast.Attribute) and call.func.value.attr == "name":
+                    res.fail(construct, f"`{short(st, 70)}` splits a `<species>_<id>` name from the left: the species part may contain underscores, the id does not", mod, st)
+                else:
+                    res.ok(construct, f"{call.func.attr} with maxsplit={want}")
+    if n < 1:
+        raise AnalysisError("UNPACK-SPLIT: no unpacked split found in the package (the leaf-name convention is parsed somewhere)")
+    return res
+
+
+def record_fields_agree(prog: Program) -> RuleResult:
+    res = RuleResult(
+        "RECORD-FIELDS-AGREE",
+        "the branch records that `_compute_branches` builds for the four kinds of object nodes treat the colour alike: "
+        "either none of the record literals carries it (it is added afterwards for every kind), or all of them do - a "
+        "kind whose record lacks what its siblings carry is drawn in the default colour",
+    )
+    mod = prog.module("render.layout")
+    fn = prog.func("render.layout", "_compute_branches")
+    records = []
+    for st in walk_no_nested(fn):
+        if isinstance(st, ast.Assign) and isinstance(st.value, ast.Dict) and isinstance(st.targets[0], ast.Subscript) and isinstance(st.targets[0].value, ast.Subscript) and isinstance(st.targets[0].value.slice, ast.Constant) and st.targets[0].value.slice.value == "branches":
+            kinds = [dotted(v) for k, v in zip(st.value.keys, st.value.values) if isinstance(k, ast.Constant) and k.value == "kind"]
+            carries = any((isinstance(k, ast.Constant) and k.value == "color") or (k is None and "col" in unparse(v).lower()) for k, v in zip(st.value.keys, st.value.values))
+            records.append((kinds[0] if kinds else "?", carries, st))
+    if len(records) < 4:
+        raise AnalysisError(f"_compute_branches: only {len(records)} branch records found")
+    construct = "render.layout:_compute_branches/colour-in-every-record"
+    with_c = [r for r in records if r[1]]
+    without = [r for r in records if not r[1]]
+    if with_c and without:
+        res.fail(construct, f"the record of {without[0][0]} does not carry the colour that the record of {with_c[0][0]} carries", mod, without[0][2])
+    else:
+        res.ok(construct, f"{len(records)} records, colour {'in every literal' if with_c else 'added afterwards for every kind'}")
+    return res
+
+
+def param_not_rewritten(prog: Program) -> RuleResult:
+    res = RuleResult(
+        "PARAM-NOT-REWRITTEN",
+        "`get_color` interns the colour it is given: its parameter is never rebound (normalised, validated and "
+        "replaced by a default): two spellings of a colour may get two definitions, but a colour is never turned "
+        "into another one",
+    )
+    mod = prog.module("render.tikz")
+    hits = [fn for qual, fn in prog.defs("render.tikz").items() if isinstance(fn, FuncNode) and qual.split(".")[-1] == "get_color"]
+    if not hits:
+        raise AnalysisError("render.tikz: get_color not found")
+    for fn in hits:
+        construct = "render.tikz:render.get_color/colour-as-given"
+        params = func_params(fn)
+        rebinds = [st for st in walk_no_nested(fn) if isinstance(st, (ast.Assign, ast.AugAssign)) and any(dotted(t) in params for t in (st.targets if isinstance(st, ast.Assign) else [st.target]))]
+        if rebinds:
+            res.fail(construct, f"`{short(rebinds[0], 70)}` replaces the colour that was asked for", mod, rebinds[0])
+        else:
+            res.ok(construct, f"`{params[0] if params else '?'}` is interned as given")
+    return res
+
+
+def varargs_as_given(prog: Program) -> RuleResult:
+    res = RuleResult(
+        "VARARGS-AS-GIVEN",
+        "`Entry.update` / `EntryProxy.update` hand on the batch of candidates they were given: the `*candidates` "
+        "parameter is never rebound or unpacked (`first, *candidates = candidates` takes a candidate out of the "
+        "retention logic), and a cell that is written for the first time starts as `table.entry()` - empty, with the "
+        "policies of the table",
+    )
+    mod = prog.module(DP)
+    n = 0
+    for cname in ("Entry", "EntryProxy"):
+        cls = prog.cls(DP, cname)
+        fn = method_def(cls, "update")
+        if fn is None or fn.args.vararg is None:
+            continue
+        n += 1
+        va = fn.args.vararg.arg
+        construct = f"{DP}:{cname}.update/batch-as-given"
+        rebinds = [
+            st for st in walk_no_nested(fn)
+            if isinstance(st, (ast.Assign, ast.AugAssign))
+            and any(isinstance(x, ast.Name) and x.id == va and isinstance(x.ctx, ast.Store) for t in (st.targets if isinstance(st, ast.Assign) else [st.target]) for x in ast.walk(t))
+            # (materialising the whole batch keeps it whole)
+            and not (isinstance(st, ast.Assign) and len(st.targets) == 1 and isinstance(st.targets[0], ast.Name) and isinstance(st.value, ast.Call) and dotted(st.value.func) in ("list", "tuple") and len(st.value.args) == 1 and dotted(st.value.args[0]) == va)
+        ]
+        seeded = [
+            c for c in walk_no_nested(fn)
+            if isinstance(c, ast.Call) and isinstance(c.func, ast.Attribute) and c.func.attr == "entry" and (c.args or c.keywords)
+        ] if cname == "EntryProxy" else []
+        if rebinds:
+            res.fail(construct, f"`{short(rebinds[0], 70)}` takes candidates out of the batch before the retention logic sees them", mod, rebinds[0])
+        elif seeded:
+            res.fail(construct, f"a cell written for the first time is created by `{short(seeded[0], 60)}`, not as an empty entry: what it starts with bypasses the retention policy", mod, seeded[0])
+        else:
+            res.ok(construct, f"`*{va}` handed on as given")
+    if n < 2:
+        raise AnalysisError("VARARGS-AS-GIVEN: update(*candidates) of Entry / EntryProxy not found")
+    return res
+
+
 RULES = {
+    "UNPACK-SPLIT": unpack_split,
+    "RECORD-FIELDS-AGREE": record_fields_agree,
+    "PARAM-NOT-REWRITTEN": param_not_rewritten,
+    "VARARGS-AS-GIVEN": varargs_as_given,
     "LOSS-COLOR-OWN": loss_color_own,
     "LABEL-LINEBREAKS": label_linebreaks,
     "JSON-INFINITE-COSTS": json_infinite_costs,
